@@ -56,6 +56,7 @@ type Term struct {
 	name string // var name; for extract/extend ops the parameter text
 	p1   int    // parameters (extract hi / extend amount)
 	p2   int
+	fp   bool // contains floating-point sub-terms
 }
 
 func (t *Term) isConst() bool { return t.op == "const" }
@@ -94,6 +95,12 @@ func (tt *TermTable) mk(op string, sort Sort, cval uint64, name string, p1, p2 i
 		return t
 	}
 	t := &Term{id: len(tt.all), op: op, sort: sort, args: args, cval: cval, name: name, p1: p1, p2: p2}
+	t.fp = fpK(sort)
+	for _, a := range args {
+		if a.fp {
+			t.fp = true
+		}
+	}
 	tt.tab[k] = t
 	tt.all = append(tt.all, t)
 	return t
@@ -215,6 +222,9 @@ func (tt *TermTable) Eq(a, b *Term) *Term {
 		return tt.Bool(true)
 	}
 	if a.sort.K == SFP64 || a.sort.K == SFP32 {
+		if a == b && fpFinite(a) {
+			return tt.Bool(true) // never NaN
+		}
 		return tt.FPCmp("fp.eq", a, b)
 	}
 	if a.isConst() && b.isConst() {
@@ -453,7 +463,76 @@ func (tt *TermTable) FPBin(op string, a, b *Term) *Term {
 			return tt.fpConst(a.sort, r)
 		}
 	}
+	// x*1, 1*x and x/1 are exact in IEEE arithmetic
+	isOne := func(t *Term) bool { return t.isConst() && fpVal(t) == 1 }
+	switch op {
+	case "fp.mul":
+		if isOne(a) {
+			return b
+		}
+		if isOne(b) {
+			return a
+		}
+	case "fp.div":
+		if isOne(b) {
+			return a
+		}
+	}
 	return tt.mk(op, a.sort, 0, "", 0, 0, a, b)
+}
+
+// fpBound returns e such that |t| < 2^e for every valuation (t is then finite and
+// not NaN when e is below the format's exponent range), or -1 when unknown.
+func fpBound(t *Term) int {
+	switch t.op {
+	case "const":
+		x := fpVal(t)
+		if math.IsNaN(x) || math.IsInf(x, 0) {
+			return -1
+		}
+		_, e := math.Frexp(x)
+		if e < 0 {
+			e = 0
+		}
+		return e + 1
+	case "to_fp_signed", "to_fp_unsigned":
+		return t.args[0].sort.W + 1
+	case "fp.neg", "fp.abs", "fp.roundToIntegral":
+		b := fpBound(t.args[0])
+		if b < 0 {
+			return -1
+		}
+		return b + 1
+	case "fp.add", "fp.sub":
+		a, b := fpBound(t.args[0]), fpBound(t.args[1])
+		if a < 0 || b < 0 {
+			return -1
+		}
+		if b > a {
+			a = b
+		}
+		return a + 2
+	case "fp.mul":
+		a, b := fpBound(t.args[0]), fpBound(t.args[1])
+		if a < 0 || b < 0 {
+			return -1
+		}
+		return a + b + 1
+	case "fp.to_fp":
+		return fpBound(t.args[0])
+	}
+	return -1
+}
+
+func fpFinite(t *Term) bool {
+	b := fpBound(t)
+	if b < 0 {
+		return false
+	}
+	if t.sort.K == SFP32 {
+		return b < 127
+	}
+	return b < 1023
 }
 
 func (tt *TermTable) FPNeg(a *Term) *Term {
